@@ -51,6 +51,8 @@ KNOWN_PATH = os.path.join(runner.VERIF, "known", "c14_findings.json")
 FLAG_RE = re.compile(r"<([X-][S-])f([io?]?)>")
 LEN_RE = re.compile(r"\blength:\d+")
 BOA_F_RE = re.compile(r"<[X-][S-]f[io?]?>")
+DESCRIPTOR_TAGS = {"accessor-element", "non-writable-element", "non-configurable-element", "non-enumerable-element", "all-false-element",
+                   "generic-descriptor", "mut:accessor", "mut:nonwritable"}
 NEED_FORMS = ["int", "double", "value", "sparse"]
 NEED_TRANS = [("int", "double"), ("double", "value"), ("value", "sparse")]
 
@@ -341,6 +343,11 @@ def evaluate_chunk(cx, hs, base, tag):
         cx.count("profile", h.profile + ("/strict" if h.strict else "/sloppy"))
         for f in h.forms:
             cx.form_hist[f] = cx.form_hist.get(f, 0) + 1
+        # boa has two sparse forms: SparseElement (values only: holes, deletes, huge indices) and SparseProperty (full descriptors)
+        if h.tags & DESCRIPTOR_TAGS or h.ops & {"Object.freeze", "Object.seal"}:
+            cx.count("sparse_kind_by_construction(histories)", "descriptors(SparseProperty)")
+        if h.tags & {"huge-index", "mut:delete", "mut:grow"} or h.ops & {"delete"} or any(c in ("literal-holes", "Array(n)") for c in h.creates):
+            cx.count("sparse_kind_by_construction(histories)", "holes(SparseElement)")
         for tr in set(h.transitions):
             key = "%s->%s" % tr
             cx.trans_hist[key] = cx.trans_hist.get(key, 0) + 1
@@ -505,7 +512,7 @@ def run(tier, seed):
         chk.inconc("v8-unavailable")
     cx = Ctx(chk, binary, pool, avoid)
     n_hist = 3000 if not thorough else 80000
-    chunk = 3000 if not thorough else 8000
+    chunk = 3000 if not thorough else 4000
     try:
         k = 0
         while k < n_hist:
